@@ -120,7 +120,10 @@ def slice_(base, lo, hi, st):
     if isinstance(base, VStr):
         n = z3.Length(base.term)
         a = clamp_bound(lo, n, z3.IntVal(0)); b = clamp_bound(hi, n, n)
-        return VStr(z3.SubString(base.term, a, z3.If(b - a < 0, 0, b - a)), base.ty)
+        r = z3.SubString(base.term, a, z3.If(b - a < 0, 0, b - a))
+        # library lemma: a slice of a string over a character class is a string over that class
+        for C in SLICE_CLOSED_CLASSES: st.assume(z3.Implies(z3.InRe(base.term, z3.Star(C)), z3.InRe(r, z3.Star(C))))
+        return VStr(r, base.ty)
     if isinstance(base, VList):
         n = base.n
         a = clamp_bound(lo, n, z3.IntVal(0)); b = clamp_bound(hi, n, n)
@@ -256,6 +259,8 @@ def comprehension(ex, e, st):
         n = z3.Length(seq.term)
     elif isinstance(seq, VList):
         elem_of = lambda i: wrap(z3.Select(seq.arr, i), seq.elem); n = seq.n
+    elif isinstance(seq, VRange):
+        elem_of = lambda i: VInt(seq.lo + i); n = z3.If(seq.hi > seq.lo, seq.hi - seq.lo, 0)
     else:
         raise ToolLimit('comprehension over %s (line %s)' % (type(seq).__name__, e.lineno))
     i = z3.Int(fid('ci'))
@@ -358,7 +363,18 @@ def ascii_case(st, t, fn):
     st.assume(z3.Implies(z3.InRe(t, asc), z3.InRe(r, asc)))          # ASCII stays ASCII under case mapping
     st.assume(z3.Implies(z3.InRe(t, z3.Star(z3.Range(chr(0), chr(127)))), z3.Length(r) == z3.Length(t)))
     st.assume((t == z3.StringVal('')) == (r == z3.StringVal('')))
+    # library lemmas (validated per code point by bounded/c15_names.py): no case mapping produces a character outside these classes,
+    # and only the literal itself maps to these literals
+    for C in CASE_CLOSED_CLASSES: st.assume(z3.Implies(z3.InRe(t, z3.Star(C)), z3.InRe(r, z3.Star(C))))
+    for lit in CASE_FIXED_LITERALS: st.assume((r == z3.StringVal(lit)) == (t == z3.StringVal(lit)))
     return r
+
+
+CASE_CLOSED_CLASSES = []
+NOSUR_CLASS = z3.Diff(z3.AllChar(z3.ReSort(z3.StringSort())), z3.Range(chr(0xd800), chr(0xdfff)))
+SLICE_CLOSED_CLASSES = [NOSUR_CLASS]          # character classes C: every slice of a string in C* is in C* (true for any class; registered to keep VCs small)
+ASCII_COMPLEMENT_CLASSES = []          # classes 'every character except some ASCII ones' (registered by spec modules)
+CASE_FIXED_LITERALS = []
 
 
 def case_literal_facts(lit):
@@ -492,6 +508,10 @@ def call_method(ex, st, node, recv, name, args, kwargs):
                 R, T = R if isinstance(R, tuple) else (R, R)
                 i = z3.Int(fid('ji'))
                 st.assume(z3.Implies(z3.ForAll([i], z3.Implies(z3.And(0 <= i, i < lst.n), z3.InRe(z3.Select(lst.arr, i), R))), z3.InRe(r, z3.Star(T))))
+        if z3.is_string_value(recv.term) and recv.term.as_string() == '':
+            # library lemma: non-empty pieces give a result at least as long as their number
+            i = z3.Int(fid('jl'))
+            st.assume(z3.Implies(z3.ForAll([i], z3.Implies(z3.And(0 <= i, i < lst.n), z3.Length(z3.Select(lst.arr, i)) >= 1)), z3.Length(r) >= lst.n))
         st.assume(z3.Implies(lst.n == 0, r == z3.StringVal('')))
         st.assume(z3.Implies(lst.n == 1, r == z3.Select(lst.arr, 0)))
         st.assume(z3.Implies(lst.n == 2, r == z3.Concat(z3.Select(lst.arr, 0), recv.term, z3.Select(lst.arr, 1))))
@@ -622,6 +642,7 @@ def str_encode(ex, st, node, recv, args, kwargs):
         ascii_ = z3.InRe(t, z3.Star(z3.Range(chr(0), chr(127))))
         nosur = z3.Not(z3.InRe(t, z3.Concat(z3.Star(z3.AllChar(z3.ReSort(z3.StringSort()))), z3.Range(chr(0xd800), chr(0xdfff)),
                                               z3.Star(z3.AllChar(z3.ReSort(z3.StringSort()))))))
+        st.assume(z3.Implies(z3.InRe(t, z3.Star(NOSUR_CLASS)), nosur))          # the same fact in its positive (class) form
         if strict: ex.may_raise(st, 'UnicodeEncodeError', node, z3.Not(nosur), nosur, 'encode(utf-8) of a lone surrogate')
         r = f(t)
         st.assume(z3.Implies(ascii_, r == t))
@@ -630,6 +651,11 @@ def str_encode(ex, st, node, recv, args, kwargs):
         for c in ('\r', '\n', '\0', ' '):
             # UTF-8 is ASCII-transparent: an ASCII byte in the output comes from that very character in the input
             st.assume(has_char(r, c) == has_char(t, c))
+        if strict:
+            # strict encoding succeeded: the bytes are valid UTF-8, decode back to the text, and are ASCII only if the text is
+            st.assume(z3.Function('utf8_valid', z3.StringSort(), z3.BoolSort())(r))
+            st.assume(DEC.setdefault('utf8', z3.Function('dec_utf8', z3.StringSort(), z3.StringSort()))(r) == t)
+            st.assume(z3.Implies(z3.InRe(r, z3.Star(z3.Range(chr(0), chr(127)))), r == t))
         return VStr(r, TBytes())
     # any other / symbolic codec: may raise LookupError or UnicodeEncodeError, result unconstrained bytes
     ex.may_raise(st, 'UnicodeEncodeError', node, z3.FreshBool('encfail'), z3.BoolVal(True), 'encode(?)')
@@ -661,6 +687,14 @@ def str_decode(ex, st, node, recv, args, kwargs):
         if strict: ex.may_raise(st, 'UnicodeDecodeError', node, z3.Not(valid(t)), valid(t), 'decode(utf-8)')
         r = f(t)
         st.assume(z3.Implies(ascii_, r == t))
+        # library lemma (UTF-8 is ASCII-transparent): bytes free of some ASCII characters decode to text free of them
+        for C in ASCII_COMPLEMENT_CLASSES: st.assume(z3.Implies(z3.InRe(t, z3.Star(C)), z3.InRe(r, z3.Star(C))))
+        if strict: st.assume(z3.InRe(r, z3.Star(NOSUR_CLASS)))
+        if strict:
+            # strict decoding never produces a lone surrogate
+            st.assume(z3.Not(z3.InRe(r, z3.Concat(z3.Star(z3.AllChar(z3.ReSort(z3.StringSort()))), z3.Range(chr(0xd800), chr(0xdfff)), z3.Star(z3.AllChar(z3.ReSort(z3.StringSort())))))))
+        if strict or (z3.is_string_value(errors.term) and errors.term.as_string() in ('replace', 'surrogateescape', 'backslashreplace')):
+            st.assume(z3.Implies(z3.InRe(r, z3.Star(z3.Range(chr(0), chr(127)))), r == t))      # non-ASCII bytes never decode to ASCII text (not so for errors='ignore')
         return VStr(r, TStr())
     a = args[0] if args else kwargs.get('encoding')
     if a is not None and isinstance(a, (VStr, VOpt)) and codec is None:
@@ -1032,6 +1066,22 @@ def m_b32(ex, st, node, b):
     return VStr(r, TBytes())
 
 
+B16 = z3.Function('b16', z3.StringSort(), z3.StringSort())
+
+
+def m_b16(ex, st, node, b):
+    """base64.b16encode: two upper-case hexadecimal digits per byte"""
+    r = B16(b.term)
+    hx = z3.Union(z3.Range('0', '9'), z3.Range('A', 'F'))
+    st.assume(z3.InRe(r, z3.Star(z3.Concat(hx, hx))))
+    st.assume(z3.Length(r) == 2 * z3.Length(b.term))
+    ascii_result(st, r)
+    return VStr(r, TBytes())
+
+
+MODFUNCS['base64.b16encode'] = m_b16
+MODFUNCS['platform.system'] = lambda ex, st, node: VStr(z3.Function('platform_system', z3.StringSort())(), TStr())          # 'Linux', 'Windows', 'Darwin', 'Java', '' ...: unknown here
+MODULES.add('platform')
 MODFUNCS['hashlib.sha1'] = m_sha1
 MODFUNCS['base64.b32encode'] = m_b32
 MODFUNCS['base64.b64encode'] = m_b64
